@@ -144,7 +144,21 @@ def t_roundtrip(D, N, C, seed):
     uh = ex.fft(jnp.asarray(u))
     back = np.asarray(ex.ifft(uh, num_spatial_dims=D, num_points=N))
     ok = core.close(back, u, 1e-12) and core.close(np.asarray(uh)[0], brute_rfftn(u[0]), 1e-11)
-    return ok, "ifft(fft(u)) != u or fft(u) is not the DFT of u"
+    if not ok:
+        return ok, "ifft(fft(u)) != u or fft(u) is not the DFT of u"
+    # the documented defaults: num_spatial_dims / num_points inferred (odd N must come back with N points on every axis)
+    # (in 1D num_points cannot be inferred from N//2+1 coefficients and the library documents that it must be given)
+    for kw in ((dict(), dict(num_spatial_dims=D), dict(num_points=N)) if D >= 2 else (dict(num_points=N),)):
+        try:
+            b2 = np.asarray(ex.ifft(uh, **kw))
+        except Exception as e:
+            return False, f"ifft(fft(u), {kw}) raises {type(e).__name__}: {e}"
+        if b2.shape != u.shape or not core.close(b2, u, 1e-12):
+            return False, f"ifft(fft(u), {kw}) has shape {b2.shape} (state {u.shape}) or differs from u"
+        uh2 = np.asarray(ex.fft(jnp.asarray(u), **({} if "num_spatial_dims" not in kw else dict(num_spatial_dims=D))))
+        if not core.close(uh2, np.asarray(uh), 1e-12):
+            return False, f"fft(u, {kw}) differs from fft(u)"
+    return True, ""
 
 
 def t_single_mode(D, N, k, phase, L, xy):
@@ -254,6 +268,23 @@ def t_masks(D, N):
     return True, ""
 
 
+def t_grid_sizes(L, lo, hi):
+    """make_grid returns exactly N points (N + 1 with full=True), the last one below L, for EVERY N in [lo, hi) and this L: a float
+    step (arange(0, L, L/N)) would give N + 1 points for particular (L, N)"""
+    ex, jnp = _ex()
+    for N in range(lo, hi):
+        for full in (False, True):
+            g = np.asarray(ex.make_grid(1, L, N, full=full))
+            n = N + 1 if full else N
+            if g.shape != (1, n):
+                return False, f"make_grid(1, {L}, {N}, full={full}) has shape {g.shape}, expected (1, {n})"
+            if not np.allclose(g[0], np.arange(n) * L / N, rtol=0, atol=1e-12 * L):
+                return False, f"make_grid(1, {L}, {N}, full={full}) is not j L / N"
+            if not full and not g[0, -1] < L:
+                return False, f"make_grid(1, {L}, {N}) contains the right boundary"
+    return True, ""
+
+
 def t_grid(D, N, L, full, zero_centered, xy):
     """make_grid: left-inclusive, right-exclusive (inclusive with full=True) equidistant grid on [0, L) resp. [-L/2, L/2); a cosine sampled on
     it has the documented Fourier coefficient (phase shifted by the grid origin)"""
@@ -279,7 +310,7 @@ def t_grid(D, N, L, full, zero_centered, xy):
     return True, ""
 
 
-TESTS = dict(grid=t_grid, masks=t_masks, roundtrip=t_roundtrip, single_mode=t_single_mode, coef_extraction=t_coef_extraction, xy_pipeline=t_xy_pipeline)
+TESTS = dict(grid_sizes=t_grid_sizes, grid=t_grid, masks=t_masks, roundtrip=t_roundtrip, single_mode=t_single_mode, coef_extraction=t_coef_extraction, xy_pipeline=t_xy_pipeline)
 
 
 def witness(ctx):
@@ -287,6 +318,8 @@ def witness(ctx):
     dn = [(1, 6), (1, 7), (2, 4), (2, 5), (3, 3), (3, 4)] if not deep else [(1, n) for n in range(3, 12)] + [(2, n) for n in range(3, 9)] + [(3, n) for n in range(3, 7)]
     for D, N in dn + [(1, 49), (1, 98), (1, 103), (2, 49)]:
         ctx.check("masks", dict(D=D, N=N))
+    for L in (1.0, 3.0, 5.0, 2 * np.pi, 2.9) + ((0.1, 10.0, 7.0, 100.0) if deep else ()):
+        ctx.check("grid_sizes", dict(L=L, lo=2, hi=131 if not deep else 300))
     for D, N in dn:
         for full, zc in itertools.product((False, True), repeat=2):
             for xy in ((False, True) if D >= 2 else (False,)):
